@@ -419,7 +419,12 @@ class TermEval:
             if depth >= self.inline_depth:
                 raise ExtractionError(f"inlining depth exceeded at {callee}")
             args, kwargs = self._args(node, env, fn, depth)
-            return self.eval_function(self.tree.funcs[callee], args, kwargs, depth + 1)
+            target = self.tree.funcs[callee]
+            if target.outer is not None:
+                # closure: the nested function sees the enclosing environment
+                inner_env = {**env, **self.bind_params(target, args, kwargs)}
+                return self.eval_body(target.node.body, inner_env, target, depth + 1)
+            return self.eval_function(target, args, kwargs, depth + 1)
         if callee in {"builtins.float", "builtins.int"} or name in {"float", "int"} and "::" not in callee:
             return self.ev(node.args[0], env, fn, depth)
         raise ExtractionError(f"call of external `{callee}` outside grammar")
@@ -678,6 +683,45 @@ class TermEval:
 
 def _all_atoms(v: RF) -> set:
     return v.atoms()
+
+
+def deep_atoms(te: "TermEval", v, _seen=None) -> set:
+    """All atoms of a value, looking through App arguments, sqrt radicands and containers."""
+    out: set = set()
+    _seen = _seen if _seen is not None else set()
+
+    def visit(x):
+        if isinstance(x, RF):
+            for a in x.atoms():
+                if a in _seen:
+                    continue
+                _seen.add(a)
+                out.add(a)
+                if isinstance(a, tuple) and a:
+                    if a[0] == "sqrt":
+                        visit(RF(D.radicands[a]))
+                    elif a[0] == "app" and a in te.apps:
+                        for y in te.apps[a].args:
+                            visit(y)
+                        for y in te.apps[a].kwargs.values():
+                            visit(y)
+        elif isinstance(x, Tup):
+            for y in x.items:
+                visit(y)
+        elif isinstance(x, Mat):
+            for r in x.rows:
+                for y in r:
+                    visit(y)
+        elif isinstance(x, PW):
+            for val, cond in x.branches:
+                visit(val)
+                visit(cond)
+        elif isinstance(x, Rel):
+            visit(x.lhs)
+            visit(x.rhs)
+
+    visit(v)
+    return out
 
 
 def _only_strings(st: ast.Assign) -> bool:
